@@ -259,8 +259,8 @@ func (sf *schemafier) schemafy(attr *expr.AttributeExpr, noref ...bool) *openapi
 	}
 
 	// Default value, example, extensions
-	s.DefaultValue = toStringMap(attr.DefaultValue)
-	s.Example = attr.Example(sf.rand)
+	s.DefaultValue = openapi.EncodeBytes(toStringMap(attr.DefaultValue))
+	s.Example = openapi.EncodeBytes(attr.Example(sf.rand))
 	s.Extensions = openapi.ExtensionsFromExpr(attr.Meta)
 
 	// Validations
